@@ -21,8 +21,11 @@ def _error_transitions(rep):
         pairs, bad0 = T.bisimulate(dump, T.extract_python())
     except T.NotExtractable:
         return
-    if bad0:
-        return          # reported by C02; without a state map the drive is not possible
+    for b in bad0:
+        if b[0] in ("expected list of state", "error-stay state"):
+            rep.violation({"kind": "error-table"}, {"engine": "bisimulation", "what": "parser.py: " + b[0] + " differs from the table derived from the grammar", "detail": list(b)})
+    if any(b[0] not in ("expected list of state", "error-stay state") for b in bad0):
+        return          # transitions differ (reported by C02); without a complete state map the drive is not possible
     cases, bad, cov = L.drive_transitions(dump, pairs)
     n_err = sum(1 for k, e in enumerate(dump["states"]) if not e["isEnd"] for st in dump["steps"][k] if st["hit"] == 0)
     rep.traces += n_err
